@@ -82,6 +82,10 @@ def _offset_nonzero(cond, taken, offset):
     c1 = pe.strip_casts(c0)
     if pe.is_sym(c1) and c1.op in ('!=', '==') and c1.args[1] == 0 and pe.strip_casts(c1.args[0]) == offset:
         r = bool(taken) if c1.op == '!=' else not taken
+    elif pe.is_sym(c1) and c1.op in ('>', '<=') and c1.args[1] == 0 and pe.strip_casts(c1.args[0]) == offset:
+        r = bool(taken) if c1.op == '>' else not taken          # the offset is unsigned: > 0 is != 0
+    elif pe.is_sym(c1) and c1.op in ('>=', '<') and c1.args[1] == 1 and pe.strip_casts(c1.args[0]) == offset:
+        r = bool(taken) if c1.op == '>=' else not taken
     elif c1 == offset:
         r = bool(taken)
     else:
